@@ -36,6 +36,10 @@
 //!     ran outside the critical section: the returned arena sat idle while a new one was made (arenas created
 //!     2 > peak of simultaneously live guards 1) → `oracle C19 CREATE-OUTSIDE-LOCK <variant> …`;
 //!
+//!   * (also `probe` mode) an idle arena in the CLAIMED state (claim guard obtained through the pool guard and leaked
+//!     with `mem::forget`) is reused by each of the six `get*` variants: no base-allocator allocation or release during
+//!     the get(s), idle stacks [claimed] and [usable, claimed] → `oracle C19 CLAIMED-IDLE-NOT-REUSED <variant> …`;
+//!
 //!   pool <cases> <single|threads|mixed>       env: VERIF_SEED
 //!   pool <probes per get variant> probe
 //!
@@ -231,6 +235,7 @@ struct Totals {
     variants: [u64; 10],
     get_panics: u64,
     probes: u64,
+    claim_probes: u64,
     probes_blocked: u64,
     probes_not_reached: u64,
     puts_after_poison: u64, // guard drops while the mutex was poisoned
@@ -1150,6 +1155,96 @@ where
     }
 }
 
+/// probe: an idle arena in the CLAIMED state (a `BumpClaimGuard` obtained through the pool guard was leaked with
+/// `mem::forget`) is still an idle arena: the next `get*` must hand it out, not discard it and create another one.
+fn run_claim_probe<S: BumpAllocatorSettings + 'static>(variant: usize, cfg: &str, rng: &mut Rng, out: &mut String, t: &mut Totals)
+where
+    CA: BaseAllocator<S::GuaranteedAllocated>,
+{
+    let name = VARIANT_NAMES[variant];
+    let size = *rng.pick(&[0usize, 64, 512, 1000, 4096]);
+    let layout = Layout::from_size_align(*rng.pick(&[1usize, 24, 600, 3000]), 1 << rng.below(5)).unwrap();
+    fn get_variant<'p, S: BumpAllocatorSettings>(pool: &'p BumpPool<CA, S>, variant: usize, size: usize, layout: Layout) -> Option<BumpPoolGuard<'p, CA, S>>
+    where
+        CA: BaseAllocator<S::GuaranteedAllocated>,
+    {
+        match variant {
+            0 => Some(pool.get()),
+            1 => pool.try_get().ok(),
+            2 => Some(pool.get_with_size(size)),
+            3 => pool.try_get_with_size(size).ok(),
+            4 => Some(pool.get_with_capacity(layout)),
+            _ => pool.try_get_with_capacity(layout).ok(),
+        }
+    }
+    for two_idle in [false, true] {
+        let mut pool: BumpPool<CA, S> = BumpPool::new_in(CA);
+        let allocs0 = CA_ALLOCS.load(SeqCst);
+        let deallocs0 = CA_DEALLOCS.load(SeqCst);
+        let want = if two_idle { 2 } else { 1 };
+        let mut problems: Vec<String> = Vec::new();
+        {
+            let pool_ref = &pool;
+            // idle stack afterwards: [usable A, claimed B] (two_idle) or [claimed B]
+            let a = if two_idle { Some(pool_ref.get()) } else { None };
+            let b = pool_ref.get();
+            let writer = a.as_ref().unwrap_or(&b);
+            let kept: &[u8] = writer.alloc_slice_copy(&(0..48).map(|i| pat(9, i)).collect::<Vec<u8>>()).into_ref();
+            let claim = b.claim();
+            let via_claim: &[u8] = claim.alloc_slice_copy(&(0..48).map(|i| pat(10, i)).collect::<Vec<u8>>()).into_ref();
+            std::mem::forget(claim);
+            if !b.is_claimed() {
+                problems.push("the arena is not in the claimed state after its claim guard was leaked".into());
+            }
+            drop(a);
+            drop(b);
+            let allocs_idle = CA_ALLOCS.load(SeqCst);
+            if allocs_idle - allocs0 != want {
+                problems.push(format!("{} chunks were allocated for {want} arenas before the probed gets", allocs_idle - allocs0));
+            }
+            // `want` idle arenas, `want` gets: nothing new may be created
+            let mut got = Vec::new();
+            for k in 0..want {
+                let g = get_variant(pool_ref, variant, size, layout);
+                let idle_seen = last_pool_lock().1;
+                if g.is_none() {
+                    problems.push("the get failed".into());
+                }
+                if idle_seen != want - k {
+                    problems.push(format!("get no. {} saw {idle_seen} idle arenas under the lock, expected {}", k + 1, want - k));
+                }
+                got.push(g);
+            }
+            let created = CA_ALLOCS.load(SeqCst) - allocs_idle;
+            let released = CA_DEALLOCS.load(SeqCst) - deallocs0;
+            if created != 0 || released != 0 {
+                oracle(out, t, &format!(
+                    "CLAIMED-IDLE-NOT-REUSED {name}: with {want} idle arena(s) in the pool (one of them in the claimed state: its claim guard was leaked) {want} get(s) \
+                     created {created} new arena(s) and released {released} chunk(s): a returned arena must be reused before a new one is created \
+                     ({} arenas for a peak of {want} simultaneously live guards), and it must not be dropped while allocations with the pool's lifetime point into it",
+                    want + created));
+            }
+            drop(got);
+            if !intact(9, kept) || !intact(10, via_claim) {
+                problems.push("a block allocated before the arena was returned was modified".into());
+            }
+        }
+        let n_arenas = pool.bumps().len();
+        if n_arenas != want {
+            oracle(out, t, &format!("CLAIMED-IDLE-NOT-REUSED {name}: the pool holds {n_arenas} arenas after {want} guards were live at the same time at most"));
+        }
+        for p in &problems {
+            oracle(out, t, &format!("PROBE claimed-idle {name}: {p}"));
+        }
+        let released = CA_DEALLOCS.load(SeqCst) - deallocs0;
+        drop(pool);
+        t.probes += 1;
+        t.claim_probes += 1;
+        let _ = writeln!(out, "probe claimed-idle {name} cfg={cfg} idle-arenas={want} arenas-afterwards={n_arenas} released-before-pool-drop={released} => {}",
+            if CA_ALLOCS.load(SeqCst) - allocs0 == want && n_arenas == want { "reused" } else { "CLAIMED-IDLE-NOT-REUSED" });
+    }
+}
+
 fn probes(per_variant: u64, crew: &Crew, t: &mut Totals) {
     let mut rng = Rng::new(seed() ^ 0x7072_6f62);
     let mut n = 0u64;
@@ -1172,9 +1267,26 @@ fn probes(per_variant: u64, crew: &Crew, t: &mut Totals) {
                 println!("oracle {PROP} panic inside a probe of {}", VARIANT_NAMES[variant]);
             }
             n += 1;
+            // a claimed idle arena is reused (no waiting involved: single-threaded)
+            let mut out = String::new();
+            println!("# case {n} probe claimed-idle {} round {round}", VARIANT_NAMES[variant]);
+            let res = catch_unwind(AssertUnwindSafe(|| {
+                if (round + variant as u64) % 2 == 0 {
+                    run_claim_probe::<SUp>(variant, "up", &mut rng.clone(), &mut out, t)
+                } else {
+                    run_claim_probe::<SDown>(variant, "down", &mut rng.clone(), &mut out, t)
+                }
+            }));
+            rng.next();
+            print!("{out}");
+            if res.is_err() {
+                t.oracle_lines += 1;
+                println!("oracle {PROP} panic inside a claimed-idle probe of {}", VARIANT_NAMES[variant]);
+            }
+            n += 1;
         }
     }
-    println!("# probes total={} drop-blocked-until-created={} not-reached={} window-ms={} oracle-lines={}", t.probes, t.probes_blocked, t.probes_not_reached, PROBE_WINDOW.as_millis(), t.oracle_lines);
+    println!("# probes total={} claimed-idle={} drop-blocked-until-created={} not-reached={} window-ms={} oracle-lines={}", t.probes, t.claim_probes, t.probes_blocked, t.probes_not_reached, PROBE_WINDOW.as_millis(), t.oracle_lines);
 }
 
 fn main() {
